@@ -292,4 +292,102 @@ example : decodeForward [3, 1, 1, 0, 0, 0, 7, 1, 44, 0, 0, 0, 2, 1] = none := by
 example : decodePayload (encodePayload 513 [5]) = some (513, [5]) := c27_payload_roundtrip 513 [5] (by omega)
 example : checkHeader [3, 9, 1] 3 8 = none := by decide
 
+/-! ### accepted ⇒ canonical (the small codecs) -/
+
+theorem u8_ofNat_toNat (b : UInt8) : UInt8.ofNat b.toNat = b := by
+  apply UInt8.toNat_inj.mp; simp
+
+/-- **propose payload: accepted ⇒ canonical** — whatever DecodePayload accepts is exactly the
+    encoding of what it returns (no second byte string decodes to the same value) -/
+theorem c27_payload_canonical (p : Bytes) (hs : Nat) (cmd : Bytes) (h : decodePayload p = some (hs, cmd)) :
+    encodePayload hs cmd = p := by
+  unfold decodePayload at h
+  split at h
+  · cases h
+  · rename_i hc
+    have hl : ¬ p.length < 3 := fun x => hc (Or.inl x)
+    have h1 : ¬ p.headD 0 ≠ 1 := fun x => hc (Or.inr x)
+    simp only [Option.some.injEq, Prod.mk.injEq] at h
+    obtain ⟨rfl, rfl⟩ := h
+    rcases p with _ | ⟨a, _ | ⟨b, _ | ⟨c, rest⟩⟩⟩
+    · simp at hl
+    · simp at hl
+    · simp at hl
+    · have ha : a = 1 := by simpa using h1
+      subst ha
+      have hb := b.toNat_lt
+      have hcl := c.toNat_lt
+      have e1 : (b.toNat * 256 + c.toNat) / 256 = b.toNat := by omega
+      have e2 : UInt8.ofNat (b.toNat * 256 + c.toNat) = c := by
+        apply UInt8.toNat_inj.mp; simp
+      simp [encodePayload, be16, rdBE, e1, e2]
+
+/-- **cluster header: accepted ⇒ canonical** -/
+theorem c27_nethdr_canonical (d p : Bytes) (v k : Nat) (h : checkHeader d v k = some p) :
+    putHeader [] v k ++ p = d := by
+  unfold checkHeader at h
+  split at h; · cases h
+  split at h; · cases h
+  split at h; · cases h
+  rename_i hl hv hk
+  simp only [Option.some.injEq] at h; subst h
+  rcases d with _ | ⟨a, _ | ⟨b, rest⟩⟩
+  · simp at hl
+  · simp at hl
+  · have ha : a.toNat = v := by simpa using hv
+    have hb : b.toNat = k := by simpa using hk
+    subst ha; subst hb
+    simp [putHeader]
+
+example : encodePayload 513 [5] = [1, 2, 1, 5] := c27_payload_canonical [1, 2, 1, 5] 513 [5] (by decide)
+example : putHeader [] 3 9 ++ [1] = [3, 9, 1] := c27_nethdr_canonical [3, 9, 1] [1] 3 9 (by decide)
+
+/-! ### the decoded uvarint fits a uint64 -/
+
+theorem uvarintAux_value (l : Bytes) : ∀ i acc v n, i ≤ 10 → acc < 2 ^ (7 * i) → uvarintAux l i acc = some (v, n) → v < 2 ^ 64 := by
+  induction l with
+  | nil => intro i acc v n _ _ h; simp [uvarintAux] at h
+  | cons b rest ih =>
+    intro i acc v n hi hacc h
+    simp only [uvarintAux] at h
+    split at h
+    · cases h
+    · rename_i hi10
+      have hi9 : i ≤ 9 := by omega
+      have hpow : 2 ^ (7 * (i + 1)) = 128 * 2 ^ (7 * i) := by
+        have : 7 * (i + 1) = 7 * i + 7 := by omega
+        rw [this, Nat.pow_add]; omega
+      split at h
+      · rename_i hb
+        split at h
+        · cases h
+        · rename_i h9
+          simp only [Option.some.injEq, Prod.mk.injEq] at h
+          obtain ⟨rfl, _⟩ := h
+          by_cases hi9' : i = 9
+          · subst hi9'
+            have hb1 : b.toNat ≤ 1 := by
+              rcases Nat.lt_or_ge 1 b.toNat with hgt | hle
+              · exact absurd ⟨rfl, hgt⟩ h9
+              · exact hle
+            have : b.toNat * 2 ^ (7 * 9) ≤ 1 * 2 ^ (7 * 9) := Nat.mul_le_mul_right _ hb1
+            have e : (2 : Nat) ^ 64 = 2 ^ (7 * 9) + 2 ^ (7 * 9) := by decide
+            omega
+          · have hle : 7 * (i + 1) ≤ 63 := by omega
+            have hmono : 2 ^ (7 * (i + 1)) ≤ 2 ^ 63 := Nat.pow_le_pow_right (by omega) hle
+            have hbm : b.toNat * 2 ^ (7 * i) ≤ 127 * 2 ^ (7 * i) := Nat.mul_le_mul_right _ (by omega)
+            have : (2 : Nat) ^ 63 < 2 ^ 64 := by decide
+            omega
+      · have hbm : b.toNat % 128 * 2 ^ (7 * i) ≤ 127 * 2 ^ (7 * i) := Nat.mul_le_mul_right _ (by omega)
+        exact ih (i + 1) _ v n (by omega) (by rw [hpow]; omega) h
+
+/-- **uvarint: the decoded value is a uint64** (the arithmetic model never exceeds what Go's
+    `x | uint64(b)<<s` can hold, so there is no hidden wrap-around in accepted inputs) -/
+theorem c27_uvarint_value_lt (d : Bytes) (v n : Nat) (h : uvarint d = some (v, n)) : v < 2 ^ 64 :=
+  uvarintAux_value d 0 0 v n (by omega) (by simp) h
+
+example : ∀ v n, uvarint [0xff, 0xff, 0xff, 0xff, 0xff, 0xff, 0xff, 0xff, 0xff, 0x01] = some (v, n) → v < 2 ^ 64 :=
+  fun v n h => c27_uvarint_value_lt _ v n h
+example : uvarint [0xff, 0xff, 0xff, 0xff, 0xff, 0xff, 0xff, 0xff, 0xff, 0x01] = some (2 ^ 64 - 1, 10) := by decide
+
 end WK.C27
